@@ -217,6 +217,12 @@ def run_deductive(prop, tier, ev, known):
                        'how_to_replay': f'./check {prop} --replay <this file>'}
             path = write_replay(prop, oname, payload)
             violations.append((sig, path, '' if confirmed else ' no-failing-input-found'))
+    if any('.pyx::' in f['target'] for f in funcs):
+        ev.setdefault('assumptions', []).append(
+            'extracted Cython kernels (pyvc/pyx.py): Cython compiles the Python-like body with Python semantics; C integers do not '
+            'overflow; typed memoryview/buffer access is plain element access; _np_empty_1D(n, .) has n elements; '
+            'std::vector.push_back appends a copy; cdivision(True) and wraparound(False) are modelled, everything else listed under '
+            'dropped_constructs of the function')
     cov = ev['coverage']
     cov['obligations'] = tot_ob
     cov['discharged'] = tot_dis
